@@ -50,7 +50,8 @@ reg("C03", "checks/C03_rtsafe.cpp", extra=["engine/interpose_alloc.cpp"])
 reg("C04", "checks/C04_dispatch.cpp", flavour="asan")
 reg("C05", "checks/C05_match.cpp")
 reg("C06", parts=[part("checks/C06_threadlink.cpp", special="tl_hook", omit=["src/cpp/thread-link.cpp"], shards=1, args=["--part", "B"], name="B"),
-                  part("checks/C06_threadlink.cpp", special="tl_hook", omit=["src/cpp/thread-link.cpp"], shards=15, args=["--part", "A"], name="A")])
+                  part("checks/C06_threadlink.cpp", special="tl_hook", omit=["src/cpp/thread-link.cpp"], shards=15, args=["--part", "A"], name="A"),
+                  part("checks/C06_threadlink.cpp", special="tl_hook", omit=["src/cpp/thread-link.cpp"], shards=8, args=["--part", "A", "--ext"], name="Aext")])
 reg("C07", "checks/C07_validate.cpp")
 reg("C08", "checks/C08_bundle.cpp")
 reg("C09", "checks/C09_walk.cpp", flavour="asan")
